@@ -5,8 +5,16 @@ declared in sequence, rendered to real source with `metaclass=property_wizard`, 
 pristine parent (so a case sees exactly the global state its own classes create), and observed through
 `inspect.signature(cls.__init__)`, recording setters, getters, a second instance and the class `__dict__`.
 
+A case may also define module-level objects between its classes (`gen_env`): Field carriers shared by several property
+fields (a generic `Annotated` alias, a `field(..)` constant), names that string annotations refer to and that are unbound /
+bound / re-bound / deleted between the class definitions, and subclasses of `property` used as the decorator.  Each class is
+judged as if it were the only one: by what its own source text means at the moment the class is created.
+
   oracle          the property statement, computed by the harness from the declaration plan with stdlib introspection
-                  (typing.get_origin / get_args, calling the annotated class) — never through the library;
+                  (typing.get_origin / get_args, calling the annotated class) — never through the library; declared
+                  defaults of Field objects are read from a registry filled when the source creates them, and every
+                  registered Field is compared with its declared options after each class (a user's Field is a
+                  declaration that other fields / classes may share);
   correspondence  the same members through the Lean model (`op: "c16"`), observables diffed;
   law check       the model's `T()` table against CPython.
 """
@@ -25,8 +33,8 @@ from harness import common as C
 KEY_UNDER_PLAIN = 'under-property-plain-default-factory-type'
 
 PRELUDE = '''
-import collections, collections.abc, dataclasses, datetime, typing
-from dataclasses import dataclass, field
+import abc, collections, collections.abc, dataclasses, datetime, typing
+from dataclasses import dataclass
 from dataclass_wizard import property_wizard
 class UL(list): pass
 class UO: pass
@@ -37,7 +45,27 @@ LAM = [(lambda k: (lambda: ['lam', k]))(k) for k in range(4)]
 LOG = []
 REG = {}
 ABSENT = object()
+TV = typing.TypeVar('TV')
+# every dataclasses.Field the case's source creates is registered with the options it was declared with (the oracle reads
+# declared defaults from here, never from the live object, and compares the live object with it after every class)
+FIELDS = []
+FIELD_OPTS = ('default', 'default_factory', 'init', 'repr', 'hash', 'compare', 'metadata')
+def field(**kw):
+    f = dataclasses.field(**kw)
+    FIELDS.append([f, {a: getattr(f, a) for a in FIELD_OPTS}, 'field(%s)' % ', '.join(sorted(kw)), set()])
+    return f
+# user-defined subclasses of `property`
+class PS0(property): pass
+class PS1(property):
+    """remembers the name it was bound to"""
+    def __set_name__(self, owner, name): self.bound_name = name
+class PS2(property):
+    def __init__(self, fget=None, fset=None, fdel=None, doc=None):
+        super().__init__(fget, fset, fdel, doc)
+        self.tag = 'ps2'
 '''
+
+PROP_CLASSES = ['property', 'PS0', 'PS1', 'PS2', 'abc.abstractproperty']
 
 ATOMS = {
     'int': 'int', 'str': 'str', 'float': 'float', 'bool': 'bool', 'bytes': 'bytes', 'tuple': 'tuple',
@@ -215,7 +243,18 @@ def gen_annotated(rng, inner=None):
     return {'k': 'annotated', 't': inner, 'extras': extras, 'py': 'typing.Annotated[%s, %s]' % (inner['py'], ', '.join(pys))}
 
 
-def gen_ty(rng, later_names=()):
+def gen_ty(rng, later_names=(), env=None):
+    if env:
+        # the case's module-level objects (shared Field carriers, names bound between the classes), see gen_env
+        if env.get('ft_types') and rng.random() < 0.3:
+            return rng.choice(env['ft_types'])
+        if env.get('aliases') and rng.random() < 0.55:
+            use = alias_use(rng, rng.choice(env['aliases']))
+            if rng.random() < 0.12:
+                # the alias named inside a string annotation (a nested unresolved name makes the whole string fail)
+                bad = "'Nope'" in use['py'] or has_fwdarg(use)
+                return {'k': 'fwd', 't': None if bad else use, 'py': repr(use['py']), 'py_feature': 'alias'}
+            return use
     r = rng.random()
     if r < 0.68:
         return gen_plain_ty(rng)
@@ -233,6 +272,148 @@ def gen_ty(rng, later_names=()):
     if "'Nope'" in tgt['py'] or has_fwdarg(tgt):
         return {'k': 'fwd', 't': None, 'py': repr(tgt['py'])}     # a nested unresolved name makes the whole string fail
     return {'k': 'fwd', 't': tgt, 'py': repr(tgt['py'])}
+
+
+# --------------------------------------------------------------------------- module-level objects shared by the classes of a case
+#
+# A case may define, between its classes, objects that several property fields (of one class or of different classes)
+# refer to.  Every class is still judged on its own: the model gets, per class, the annotation / default the text means
+# at the moment that class is created, and the oracle evaluates the texts itself against the names bound at that moment.
+#
+#   aliases   HIDk = typing.Annotated[TV, <extras with ONE dataclasses.field(..)>]   used as HIDk[int], HIDk[str], ..
+#             (typing copies the metadata tuple: every specialisation carries the very same Field object)
+#   privs     PRIVk = field(..)          assigned to the fields of several property fields / several classes
+#   fts       FTk                        a name used in string annotations ('FTk', 'typing.List[FTk]', ..) that is
+#             unbound, bound, re-bound to another type or deleted between the class definitions (schedule per class)
+#   props     the classes written after `@` for properties: `property` or user-defined subclasses of it
+
+FIELD_EXTRA_OPTS = ['repr=False', 'compare=False', 'hash=False', "metadata={'k': 1}"]
+
+
+def gen_shared_fieldspec(rng):
+    """a field(...) call meant to be shared: mostly without default (the default is then implied by each user's type)"""
+    fs, fpy = gen_fieldspec(rng, rng.choice(['empty', 'empty', 'empty', 'default', 'factory']))
+    opts = rng.sample(FIELD_EXTRA_OPTS, rng.randint(0, 2))
+    return fs, ', '.join(([fpy] if fpy else []) + opts)
+
+
+def gen_alias(rng, name):
+    fs, fpy = gen_shared_fieldspec(rng)
+    extras, pys = [{'field': fs}], ['field(%s)' % fpy]
+    if rng.random() < 0.3:
+        pos = rng.randint(0, 1)
+        extras.insert(pos, 'other')
+        pys.insert(pos, rng.choice(["'meta'", '123']))
+    return {'name': name, 'extras': extras, 'py': '%s = typing.Annotated[TV, %s]' % (name, ', '.join(pys))}
+
+
+def alias_use(rng, alias):
+    inner = t_atom(rng.choice(CONCRETE)) if rng.random() < 0.6 else gen_plain_ty(rng)
+    return {'k': 'annotated', 't': inner, 'extras': alias['extras'], 'py': '%s[%s]' % (alias['name'], inner['py']), 'py_feature': 'alias'}
+
+
+def gen_priv(rng, name):
+    fs, fpy = gen_shared_fieldspec(rng)
+    return {'name': name, 'fs': fs, 'py': '%s = field(%s)' % (name, fpy)}
+
+
+def priv_rhs(priv):
+    return {'field': priv['fs'], 'init': True, 'py': priv['name']}
+
+
+FT_TEXTS = ['bare'] * 10 + ['list'] * 2 + ['dict'] + ['ann'] * 3 + ['union'] * 3 + ['opt']
+
+
+def gen_ft_target(rng, text):
+    """the type a name is bound to (a plan the model understands)"""
+    if text == 'bare':
+        r = rng.random()
+        if r < 0.45:
+            return t_atom(rng.choice(list(ATOMS)))
+        return gen_annotated(rng, t_atom(rng.choice(CONCRETE))) if r < 0.6 else gen_plain_ty(rng)
+    if rng.random() < 0.65:
+        return t_atom(rng.choice(list(ATOMS)))
+    py, a, inst = rng.choice(GENERIC)
+    if "'Nope'" in py:
+        return t_atom('list')
+    return {'k': 'generic', 'a': a, 'inst': inst, 'py': py}
+
+
+def ft_type(name, text, target):
+    """the annotation `text` over `name`, meaning `target` (None: the name is not bound, the string cannot be evaluated)"""
+    py = {'bare': name, 'list': 'typing.List[%s]' % name, 'dict': 'typing.Dict[str, %s]' % name,
+          'ann': 'typing.Annotated[%s, 123]' % name, 'union': 'typing.Union[%s, UR]' % name,
+          'opt': 'typing.Optional[%s]' % name}[text]
+    t = None
+    if target is not None and ("'Nope'" in target['py'] or has_fwdarg(target)):
+        target = None       # the evaluation of a string is recursive: an unresolved name nested in the bound type fails it too
+    if target is not None:
+        if text == 'bare':
+            t = target
+        elif text in ('list', 'dict'):
+            t = {'k': 'generic', 'a': text, 'inst': False, 'py': py}
+        elif text == 'ann':
+            t = {'k': 'annotated', 't': target, 'extras': ['other'], 'py': py}
+        elif text == 'union':
+            t = {'k': 'union', 'args': [target, t_atom('userReq')], 'py': py}
+        else:
+            t = {'k': 'union', 'args': [target, {'k': 'none', 'py': 'None'}], 'py': py}
+    return {'k': 'fwd', 't': t, 'py': repr(py), 'py_feature': 'ft'}
+
+
+def gen_ft(rng, name, n):
+    """binding schedule of one name over the n classes of a case: per class index the statements executed just before
+    the class, and the type the name means while that class is created"""
+    text = rng.choice(FT_TEXTS)
+    same_text = rng.random() < 0.8
+    bind_at = rng.choice([1] * 6 + [0] * 2 + [2, n])
+    pre, types = [], []
+    cur = None
+    for k in range(n):
+        stm = []
+        if k == bind_at or (cur is not None and rng.random() < 0.3):
+            cur = gen_ft_target(rng, text if same_text else 'any-wrapper')      # (re-)binding
+            stm.append('%s = %s' % (name, cur['py']))
+        elif cur is not None and rng.random() < 0.08:
+            cur = None
+            stm.append('del %s' % name)
+        tx = text if same_text else rng.choice(FT_TEXTS)
+        if tx == 'bare' or cur is None or cur['k'] in ('atom', 'generic'):
+            types.append(ft_type(name, tx, cur))
+        else:
+            types.append(ft_type(name, 'bare', cur))      # a wrapper text over a target the wrapper plan does not cover
+        pre.append(stm)
+    return {'name': name, 'pre': pre, 'types': types}
+
+
+def gen_env(rng, n):
+    """the module-level objects of a case with n classes; None when the case has none"""
+    env = {'aliases': [], 'privs': [], 'fts': [], 'props': None}
+    if rng.random() < 0.2:
+        for j in range(rng.randint(0, 2)):
+            env['aliases'].append(gen_alias(rng, 'HID%d' % j))
+        for j in range(rng.randint(0 if env['aliases'] else 1, 2)):
+            env['privs'].append(gen_priv(rng, 'PRIV%d' % j))
+    if n >= 2 and rng.random() < 0.3:
+        for j in range(rng.randint(1, 2)):
+            env['fts'].append(gen_ft(rng, 'FT%d' % j, n))
+    if rng.random() < 0.3:
+        env['props'] = [rng.choice(PROP_CLASSES) for _ in range(3)] + rng.sample(PROP_CLASSES[1:], 2)
+    return env
+
+
+def env_for_class(rng, env, k):
+    """the view of the environment while class k is written: (env for the generators, statements before the class)"""
+    pre = []
+    if k == 0:
+        pre += [a['py'] for a in env['aliases']] + [p['py'] for p in env['privs']]
+    ft_types, forced = [], []
+    for ft in env['fts']:
+        pre += ft['pre'][k]
+        ft_types.append(ft['types'][k])
+        if rng.random() < 0.85:
+            forced.append(ft['types'][k])
+    return dict(env, ft_types=ft_types, forced=forced), pre
 
 
 def has_fwdarg(t):
@@ -254,6 +435,14 @@ def gen_rhs(rng, kinds=('none', 'value', 'fdefault', 'ffactory', 'fempty')):
     return {'field': fs, 'init': True, 'py': 'field(%s)' % fpy}
 
 
+def m_prop(rng, name, settable, props=None):
+    """a property member; `props` (when given) are the classes to write after `@`: property or subclasses of it"""
+    m = {'k': 'prop', 'n': name, 'settable': settable}
+    if props:
+        m['py_deco'] = rng.choice(props)
+    return m
+
+
 def m_field(name, ty, rhs):
     if rhs is None:
         return {'k': 'ann', 'n': name, 't': ty}
@@ -268,19 +457,31 @@ STYLES = ['S1', 'S2', 'S3', 'S4', 'S5']
 # S5 S2 plus the IDE helper `_x: T = field(init=False[, default=..])`  (docs/using_field_properties.rst)
 
 
-def gen_styled_class(rng, cname, later_names, strip_defaults_of=None):
-    """a class in the documented styles: 1..3 property fields in varying order among ordinary members"""
+def gen_styled_class(rng, cname, later_names, strip_defaults_of=None, env=None):
+    """a class in the documented styles: 1..3 property fields in varying order among ordinary members (up to 4 when the
+    case has module-level objects for them to share, see gen_env)"""
     if strip_defaults_of is not None:
         return strip_defaults(strip_defaults_of, cname)
-    nprop = rng.randint(1, 3)
+    env = env or {}
+    forced = list(env.get('forced', ()))
+    sharing = bool(env.get('aliases') or env.get('privs'))
+    nprop = max(rng.randint(2, 4) if sharing else rng.randint(1, 3), len(forced))
+    forced_at = dict(zip(rng.sample(range(nprop), len(forced)), forced))
+    props = env.get('props')
     slots = []      # (field members, property members, item)
     for j in range(nprop):
         pub = 'p%d' % j
         style = rng.choice(STYLES)
-        ty = gen_ty(rng, later_names)
+        ty = forced_at[j] if j in forced_at else gen_ty(rng, later_names, env)
         item = {'kind': 'propfield', 'pub': pub, 'style': style, 'ty': ty, 'explicit': None}
         if style in ('S1', 'S3'):
-            rhs = gen_rhs(rng)
+            if env.get('privs') and rng.random() < 0.5:
+                rhs = priv_rhs(rng.choice(env['privs']))
+                item['py_feature'] = 'priv'
+            elif ty.get('py_feature'):
+                rhs = gen_rhs(rng, ('none', 'none', 'fempty', 'value', 'fdefault', 'ffactory'))
+            else:
+                rhs = gen_rhs(rng)
             fname = '_' + pub if style == 'S1' else pub
             pname = pub if style == 'S1' else '_' + pub
             item['explicit'] = explicit_of(rhs)
@@ -304,7 +505,7 @@ def gen_styled_class(rng, cname, later_names, strip_defaults_of=None):
             item['helper_ty'] = hty
             fm = [m_field(pub, ty, rhs), helper] if rng.random() < 0.7 else [helper, m_field(pub, ty, rhs)]
         item['prop'] = pname
-        slots.append((fm, [{'k': 'prop', 'n': pname, 'settable': True}], item))
+        slots.append((fm, [m_prop(rng, pname, True, props)], item))
     # ordinary members
     for j in range(rng.randint(0, 3)):
         r = rng.random()
@@ -328,9 +529,9 @@ def gen_styled_class(rng, cname, later_names, strip_defaults_of=None):
             with_field = rng.random() < 0.5
             if with_field:
                 fm = [m_field('_' + name, t_atom('int'), {'lit': 0, 'py': '0'})]
-            slots.append((fm, [{'k': 'prop', 'n': name, 'settable': False}], {'kind': 'ro', 'name': name, 'with_field': with_field}))
+            slots.append((fm, [m_prop(rng, name, False, props)], {'kind': 'ro', 'name': name, 'with_field': with_field}))
         elif r < 0.75:
-            slots.append(([], [{'k': 'prop', 'n': rng.choice([name, '_' + name]), 'settable': True}], {'kind': 'plainprop', 'name': name}))
+            slots.append(([], [m_prop(rng, rng.choice([name, '_' + name]), True, props)], {'kind': 'plainprop', 'name': name}))
             slots[-1][2]['name'] = slots[-1][1][0]['n']
         elif r < 0.9:
             l = gen_lit(rng)
@@ -403,8 +604,20 @@ def strip_defaults(cls, cname):
 
 # --------------------------------------------------------------------------- wild classes (correspondence only)
 
-def gen_wild_class(rng, cname, later_names):
+def gen_wild_class(rng, cname, later_names, env=None):
     """arbitrary member lists over a tiny name pool: shadowing in every order, colliding properties"""
+    env = env or {}
+
+    priv_used = []
+
+    def gen_rhs_w(rng, kinds):
+        # a shared Field at most once per wild class: dataclasses itself may get to see it here, and it names a Field
+        # after the (one) attribute it is bound to
+        if env.get('privs') and not priv_used and rng.random() < 0.3:
+            priv_used.append(1)
+            return priv_rhs(rng.choice(env['privs']))
+        return gen_rhs(rng, kinds)
+
     pool = ['a', '_a', 'b', '_b']
     members = []
     annotated = set()
@@ -412,16 +625,16 @@ def gen_wild_class(rng, cname, later_names):
         n = rng.choice(pool)
         r = rng.random()
         if r < 0.22:
-            members.append({'k': 'ann', 'n': n, 't': gen_ty(rng, later_names)})
+            members.append({'k': 'ann', 'n': n, 't': gen_ty(rng, later_names, env)})
             annotated.add(n)
         elif r < 0.5:
-            members.append({'k': 'annAssign', 'n': n, 't': gen_ty(rng, later_names), 'r': gen_rhs(rng, ('value', 'value', 'fdefault', 'ffactory', 'fempty'))})
+            members.append({'k': 'annAssign', 'n': n, 't': gen_ty(rng, later_names, env), 'r': gen_rhs_w(rng, ('value', 'value', 'fdefault', 'ffactory', 'fempty'))})
             annotated.add(n)
         elif r < 0.6:
             l = gen_lit(rng)
             members.append({'k': 'assign', 'n': n, 'r': {'lit': l, 'py': lit_py(l)}})
         elif r < 0.9:
-            members.append({'k': 'prop', 'n': n, 'settable': rng.random() < 0.8})
+            members.append(m_prop(rng, n, rng.random() < 0.8, env.get('props')))
         else:
             members.append({'k': 'method', 'n': n})
     return {'name': cname, 'styled': False, 'members': members, 'items': []}
@@ -429,7 +642,7 @@ def gen_wild_class(rng, cname, later_names):
 
 # --------------------------------------------------------------------------- rendering
 
-PROP_SRC = '''    @property
+PROP_SRC = '''    @{d}
     def {n}(self):
         return self.__dict__.get('${n}', ABSENT)
 '''
@@ -440,8 +653,8 @@ SETTER_SRC = '''    @{n}.setter
 '''
 
 
-def render_class(cls, decorator=True):
-    lines = []
+def render_class(cls, decorator=True, pre=True):
+    lines = list(cls.get('pre', ())) if pre else []      # module-level statements executed just before the class
     if decorator:
         lines.append('@dataclass')
     lines.append('class %s(metaclass=property_wizard):' % cls['name'])
@@ -455,7 +668,7 @@ def render_class(cls, decorator=True):
         elif k == 'assign':
             body.append('    %s = %s' % (n, m['r']['py']))
         elif k == 'prop':
-            body.append(PROP_SRC.format(n=n).rstrip('\n'))
+            body.append(PROP_SRC.format(n=n, d=m.get('py_deco', 'property')).rstrip('\n'))
             if m['settable']:
                 body.append(SETTER_SRC.format(n=n).rstrip('\n'))
             body.append('    REG.setdefault(%r, []).append(%s)' % (cls['name'] + '.' + n, n))
@@ -593,14 +806,49 @@ def observe_class(cls, g):
     import inspect
     name = cls['name']
     o = {}
+    if cls.get('pre'):
+        # module-level statements between the classes (shared objects, names bound / re-bound / deleted)
+        exec(compile('\n'.join(cls['pre']) + '\n', '<c16 before %s>' % name, 'exec', dont_inherit=True), g)
     names_before = set(g)
-    src = render_class(cls, decorator=False)
+    src = render_class(cls, decorator=False, pre=False)
     try:
         exec(compile(src, '<c16 %s>' % name, 'exec', dont_inherit=True), g)
     except Exception as e:
         o['cls'] = 'wizard:' + err_name(e)
         o['detail'] = repr(e)[:200]
+        o['fields_modified'] = fields_modified(g)
         return o
+    try:
+        return observe_created(cls, g, o, names_before)
+    finally:
+        o['fields_modified'] = fields_modified(g)
+
+
+def fields_modified(g):
+    """user-written Field objects whose declared options differ from what they were created with (reported once)"""
+    out = []
+    for f, decl, how, said in g['FIELDS']:
+        for a, v in decl.items():
+            now = getattr(f, a, ABSENT_)
+            if now is not v and a not in said:
+                said.add(a)
+                out.append([how, a, repr(v)[:60], repr(now)[:60]])
+    return out
+
+
+def declared_default(f, g):
+    """(default, default_factory) a Field was declared with — from the registry of the case module, so that whatever
+    happened to the object since does not reach the oracle"""
+    for rec in g['FIELDS']:
+        if rec[0] is f:
+            return rec[1]['default'], rec[1]['default_factory']
+    return f.default, f.default_factory
+
+
+def observe_created(cls, g, o, names_before):
+    import dataclasses
+    import inspect
+    name = cls['name']
     K = g[name]
     reg = {k[len(name) + 1:]: v for k, v in g['REG'].items() if k.startswith(name + '.')}
     snap = dict(vars(K))
@@ -766,10 +1014,11 @@ def implied_default(tp, g, genv):
     if typing.get_origin(tp) is typing.Annotated:
         for e in tp.__metadata__:
             if isinstance(e, dataclasses.Field):
-                if e.default is not dataclasses.MISSING:
-                    return {'allowed': [tok(e.default, g)], 'fresh': False, 'why': 'Annotated field(default=)'}
-                if e.default_factory is not dataclasses.MISSING:
-                    return {'allowed': [tok(e.default_factory(), g)], 'fresh': True, 'why': 'Annotated field(default_factory=)'}
+                e_default, e_factory = declared_default(e, g)
+                if e_default is not dataclasses.MISSING:
+                    return {'allowed': [tok(e_default, g)], 'fresh': False, 'why': 'Annotated field(default=)'}
+                if e_factory is not dataclasses.MISSING:
+                    return {'allowed': [tok(e_factory(), g)], 'fresh': True, 'why': 'Annotated field(default_factory=)'}
                 break
         return implied_default(tp.__origin__, g, genv)
     origin = typing.get_origin(tp)
@@ -869,7 +1118,7 @@ def probe_quirks():
 
 def strip_py(o):
     if isinstance(o, dict):
-        return {k: strip_py(v) for k, v in o.items() if k != 'py'}
+        return {k: strip_py(v) for k, v in o.items() if not k.startswith('py')}
     if isinstance(o, list):
         return [strip_py(x) for x in o]
     return o
@@ -1108,22 +1357,37 @@ def law_impl(pys):
 def gen_case(rng, i):
     r = rng.random()
     n = rng.choice([1, 1, 2, 3])
+    twins = 0.62 <= r < 0.72
+    if twins:
+        n = rng.choice([2, 3])
     names = ['C%d' % k for k in range(n)]
+    env = gen_env(rng, n)
+    if twins:
+        env['fts'] = []          # the twin repeats the annotations of C0 verbatim, with what they meant for C0
     classes = []
+
+    def add(k, make):
+        envk, pre = env_for_class(rng, env, k)
+        c = make(envk)
+        c.pop('pre', None)
+        if pre:
+            c['pre'] = pre
+        classes.append(c)
+
     if r < 0.62:
         for k, nm in enumerate(names):
-            classes.append(gen_styled_class(rng, nm, names[k:]))
+            add(k, lambda e: gen_styled_class(rng, nm, names[k:], env=e))
         kind = 'styled'
-    elif r < 0.72:
+    elif twins:
         # twins: a class with explicit defaults, then the same class with the defaults removed
-        a = gen_styled_class(rng, 'C0', ['C1', 'C2'])     # names unresolvable in C0 and in its twin C1
-        classes = [a, gen_styled_class(rng, 'C1', [], strip_defaults_of=a)]
-        if rng.random() < 0.5:
-            classes.append(gen_styled_class(rng, 'C2', ['C2']))
+        add(0, lambda e: gen_styled_class(rng, 'C0', ['C1', 'C2'], env=e))     # names unresolvable in C0 and in its twin C1
+        add(1, lambda e: gen_styled_class(rng, 'C1', [], strip_defaults_of=classes[0]))
+        if n == 3:
+            add(2, lambda e: gen_styled_class(rng, 'C2', ['C2'], env=e))
         kind = 'styled'
     else:
         for k, nm in enumerate(names):
-            classes.append(gen_wild_class(rng, nm, names[k:]) if rng.random() < 0.8 else gen_styled_class(rng, nm, names[k:]))
+            add(k, lambda e: gen_wild_class(rng, nm, names[k:], env=e) if rng.random() < 0.8 else gen_styled_class(rng, nm, names[k:], env=e))
         kind = 'wild'
     return {'kind': kind, 'classes': classes}
 
@@ -1142,7 +1406,14 @@ def run(ctx: C.Ctx):
                 'classes incl. dict- and list-subclasses / typing + PEP 585 generic collections / bare typing aliases / Union, '
                 'Optional, X|Y / Literal / Annotated / Any / None / forward reference (resolvable, unresolvable, later class), '
                 'among ordinary fields, read-only and ordinary properties, attributes and methods, field order shuffled, properties '
-                'before/after their field or at the end; "twins" (a class, then the same class without defaults); wild: arbitrary '
+                'before/after their field or at the end; "twins" (a class, then the same class without defaults); module-level '
+                'objects shared by the property fields of a case (20%: generic aliases HIDk = Annotated[TV, field(..)] used as '
+                'HIDk[int] / HIDk[str] / .., and PRIVk = field(..) assigned in several fields / classes — mostly without default, so '
+                'each user must get the default implied by its own type; every Field the source creates is compared with its '
+                'declared options after each class); names used in string annotations (FTk, typing.List[FTk], Annotated / Union / '
+                'Optional over FTk) that are unbound / bound / re-bound / deleted between the classes of a case (30% of the cases '
+                'with >= 2 classes; the same text in every class mostly); properties written with user-defined subclasses of '
+                '`property` and abc.abstractproperty (30% of the cases); wild: arbitrary '
                 'member lists over names a/_a/b/_b (shadowing, colliding properties) for model correspondence only. Per class: '
                 'every subset of the optional constructor arguments (<= 4 optional, else empty/full/(co-)singletons), a missing '
                 'required argument, an unexpected keyword, a property object as argument; two instances per argument set; later '
@@ -1213,6 +1484,20 @@ def run(ctx: C.Ctx):
         for ci, (cls, obs) in enumerate(zip(case['classes'], res['ok'])):
             ctx.count('class:' + ('styled' if cls['styled'] else 'wild'))
             ctx.count('cls:' + obs['cls'].split(':')[0])
+            for fm in obs.get('fields_modified', ()):
+                # a Field the user wrote is a declaration other fields / classes may share: creating a class must leave
+                # its options as declared (else what a later user of the object gets depends on who came first)
+                ctx.fail(case['kind'], case, '%s: creating the class changed %s of the user\'s %s object from %s to %s'
+                         % (cls['name'], fm[1], fm[0], fm[2], fm[3]), detail=dict(src=render_case(case)))
+            for m in cls['members']:
+                if m['k'] == 'prop' and m.get('py_deco', 'property') != 'property':
+                    ctx.count('dim:property-subclass')
+                if m['k'] in ('ann', 'annAssign') and m['t'].get('py_feature'):
+                    ctx.count('dim:' + m['t']['py_feature'])
+                if m['k'] == 'annAssign' and m['r'].get('py', '').startswith('PRIV'):
+                    ctx.count('dim:priv')
+            if ci and cls.get('pre'):
+                ctx.count('dim:statements-between-classes')
             for it in cls['items']:
                 if it['kind'] == 'propfield':
                     ctx.count('style:' + it['style'])
